@@ -19,7 +19,7 @@ fuzz_target!(|data: &[u8]| {
         if let Err(f) = check_rounding(fmt, &c, &cfgs) {
             // check_rounding judges every configuration's result: a disagreement between
             // configurations necessarily shows up as a misrounding in at least one of them
-            mlv::fuzzglue::violation(&f.message);
+            mlv::fuzzglue::report(&f, &["C01", "C02", "C05"]);
         }
     }
 });
